@@ -16,6 +16,11 @@ def one(d):
     subprocess.run("git -C /repo worktree add -q %s HEAD" % wt, shell=True, check=True)
     try:
         r = subprocess.run("git apply %s" % os.path.join(d, "patch.diff"), shell=True, cwd=wt, stdout=subprocess.PIPE, stderr=subprocess.STDOUT, text=True)
+        if r.returncode and meta.get("base_commit"):
+            # written against an earlier commit; a later fix: touched the same lines - run it on its own base
+            subprocess.run("git -C /repo worktree remove --force %s" % wt, shell=True, stdout=subprocess.DEVNULL, stderr=subprocess.DEVNULL)
+            subprocess.run("git -C /repo worktree add -q %s %s" % (wt, meta["base_commit"]), shell=True, check=True)
+            r = subprocess.run("git apply %s" % os.path.join(d, "patch.diff"), shell=True, cwd=wt, stdout=subprocess.PIPE, stderr=subprocess.STDOUT, text=True)
         if r.returncode:
             return name, prop, "patch-does-not-apply", r.stdout.strip()[:200]
         t0 = time.time()
